@@ -8,7 +8,8 @@ From Texel Require Import Chess.Types Chess.Position Chess.PositionSpec Chess.Po
   Chess.BitBoard Chess.MoveGen Chess.Spec Chess.MoveGenWF
   Chess.BitBoardProofs Chess.RayProofs Chess.MoveGenProofs Chess.AttackProofs Chess.SliderProofs Chess.PawnProofs
   Chess.PseudoProofs Chess.MakeSpecProofs Chess.TryMoveProofs Chess.CastleProofs Chess.LegalProofs Chess.ShortcutProofs
-  Chess.IsLegalProofs Chess.CapturesProofs Chess.NoDupProofs Chess.WfProofs Chess.IsLegalFull gen.BitBoardTables.
+  Chess.IsLegalProofs Chess.CapturesProofs Chess.NoDupProofs Chess.WfProofs Chess.IsLegalFull Chess.EvasionsIn Chess.CapChecksSub
+  gen.BitBoardTables.
 Import ListNotations.
 Local Open Scope N_scope.
 
@@ -149,3 +150,20 @@ Proof.
   - split; [rewrite tryMoveB_verdict_twin; exact Hv | exact tryMoveB_same].
 Qed.
 End Transfer.
+
+(** C01_isLegal *)
+Theorem isLegal_all : forall p m, WF p ->
+  (In m (pseudoLegalMoves p) \/ In m (checkEvasions p) \/ In m (pseudoLegalCapturesAndChecks p) \/ In m (pseudoLegalCaptures p)) ->
+  snd (isLegal p m (inCheck p)) = legal_specb (abs p) m /\ samePosition (fst (isLegal p m (inCheck p))) p.
+Proof.
+  intros p m H Hgen. apply (isLegal_any p H m).
+  destruct Hgen as [Hm|[Hm|[Hm|Hm]]];
+    [exact Hm | exact (evasions_sub p H m Hm) | exact (capchecks_sub p H m Hm) | exact (caps_sub p H m Hm)].
+Qed.
+
+(** non-vacuity: in the pinned-e.p. position isLegal rejects the pseudo-legal capture f4xe3 and
+    accepts the king move Kh4-g5, handing the position back *)
+Example isLegal_epPin :
+  In (mkMove 29 20 EMPTY) (pseudoLegalMoves epPinPosition) /\ snd (isLegal epPinPosition (mkMove 29 20 EMPTY) (inCheck epPinPosition)) = false /\
+  In (mkMove 31 38 EMPTY) (pseudoLegalMoves epPinPosition) /\ snd (isLegal epPinPosition (mkMove 31 38 EMPTY) (inCheck epPinPosition)) = true.
+Proof. vm_compute. intuition. Qed.
